@@ -707,9 +707,9 @@ func e2() {
 func main() {
 	res = report.Init("C13", "model_checking")
 	tr = anthropic.NewTranslator(hutil.QuietLogger(), config.AnthropicTranslatorConfig{Enabled: true, MaxMessageSize: 10 << 20})
-	depth := 6
+	depth := 5
 	if report.Thorough() {
-		depth = 7
+		depth = 6
 	}
 	e1(depth, true)
 	e1(depth-1, false)
